@@ -136,12 +136,15 @@ def probe_names():
             r = []          # the code refuses this character as a key: no file name (the theorems over the table then fail)
         esc.append((cp, r))
     unq = []
+    # (the decoding function under the name the module imports it by; if that name is gone the table says "nothing is decoded":
+    #  the theorems over the table then fail and the check goes on to search the running code for a name that is listed wrongly)
+    dec = getattr(sf, "unquote", None) or (lambda t: "")
     for xx in range(0, 128):
         for fmt in ("%%%02X", "%%%02x"):
             t = fmt % xx
-            unq.append(([ord(c) for c in t], [ord(c) for c in sf.unquote(t)]))
+            unq.append(([ord(c) for c in t], [ord(c) for c in dec(t)]))
     for t in ("%", "%4", "%G1", "%1G", "a%3Ab", "%%3A", "%3A%3a", "x%", "%3", "%253A"):
-        unq.append(([ord(c) for c in t], [ord(c) for c in sf.unquote(t)]))
+        unq.append(([ord(c) for c in t], [ord(c) for c in dec(t)]))
     return esc, unq
 
 
